@@ -47,6 +47,11 @@ type payload struct {
 // function of (w, seq, h), so a tuple mixed from two stores cannot verify.
 func tagged(w, seq int, h uint64, depth, ply int) payload {
 	m := mix64(h ^ uint64(w)<<40 ^ uint64(seq)<<8 ^ 0xabcdef)
+	if (m>>32)%5 == 0 {
+		// a store without a move (what the searches write for leaves and quiescence results)
+		return payload{bound: search.Bound(m & 1), depth: depth, ply: ply,
+			score: eval.Score{Type: eval.Heuristic, Pawns: eval.Pawns(float32(uint32(w)<<19 | uint32(seq&0x7ffff)))}}
+	}
 	return payload{
 		bound: search.Bound(m & 1),
 		depth: depth,
